@@ -111,13 +111,23 @@ def hyps_contribution(flow, arg, thparam, nonthm_params, prop_expr):
     return None
 
 
+def _nfunc(repo, qual):
+    """the function as the kernel rules read it: conditions that were given a name are read at their tests, a list filled by an
+    append loop is read as the comprehension it abbreviates (sa/normalize.py, sa/cfg.py)"""
+    from ..normalize import append_loops_as_comprehensions, as_func
+    from ..cfg import inline_named_conditions
+    f = repo.func(THM, qual)
+    node = inline_named_conditions(append_loops_as_comprehensions(f.node))
+    return as_func(f, node)
+
+
 # ---------------------------------------------------------------------- K1
 def rule_k1(repo):
     res = RuleResult('C01.K1', 'every theorem premise of a primitive rule contributes its hypotheses to every returned Thm', floor=12)
     rows = primitive_table(repo)
     npaths = 0
     for name, (fn, tag, _row) in sorted(rows.items()):
-        func = repo.func(THM, fn)
+        func = _nfunc(repo, fn)
         flow = flow_of(func.node)
         ths = theorem_params(func)
         nonthm = [p for p in func.params() if p not in ths]
@@ -164,7 +174,7 @@ def rule_k2(repo):
     res = RuleResult('C01.K2', 'every component destructured from a premise is used in the result or linked by an equality test that guards the result', floor=12)
     rows = primitive_table(repo)
     for name, (fn, tag, _row) in sorted(rows.items()):
-        func = repo.func(THM, fn)
+        func = _nfunc(repo, fn)
         flow = flow_of(func.node)
         cfg = cfg_of(func.node)
         ths = theorem_params(func)
@@ -200,7 +210,7 @@ def rule_k2(repo):
     for fn, left_attr, right_attr, what in (
             ('Thm.combination', 'domain_type', 'get_type', 'domain type of f equals type of x'),
             ('Thm.forall_elim', 'var_T', 'get_type', 'type of the bound variable equals type of s')):
-        func = repo.func(THM, fn)
+        func = _nfunc(repo, fn)
         cfg = cfg_of(func.node)
         rets = thm_returns(func)
 
@@ -808,7 +818,7 @@ def rule_k16(repo):
     and hypothesis and conclusion then speak about different variables."""
     res = RuleResult('C01.K16', 'an instantiation rule applies to every hypothesis exactly the operation it applies to the conclusion', floor=2)
     for fn in ('subst_type', 'substitution'):
-        func = repo.func(THM, 'Thm.' + fn)
+        func = _nfunc(repo, 'Thm.' + fn)
         flow = flow_of(func.node)
         th = theorem_params(func)
         need(len(th) == 1, 'Thm.%s: one theorem premise expected' % fn)
@@ -836,6 +846,7 @@ def rule_k16(repo):
                 continue
             op, opargs = prop.func.attr, [src(a, 60) for a in prop.args]
             gen = hyps.args[0] if isinstance(hyps, ast.Call) and call_name(hyps) in ('tuple', 'list') and hyps.args else hyps
+            gen = value_of(gen)             # tuple(hyps) with hyps = [.. for hyp in th.hyps]
             if not (isinstance(gen, (ast.GeneratorExp, ast.ListComp)) and len(gen.generators) == 1 and
                     src(gen.generators[0].iter, 40) == th[0] + '.hyps' and isinstance(gen.generators[0].target, ast.Name)):
                 problems.append('line %d: the hypotheses are not built by one pass over `%s.hyps`' % (r.lineno, th[0]))
